@@ -164,6 +164,43 @@ def runner(rep, tier, seed, replay):
         judge(rep, c, form, line, res)
         if rep.cov["evaluations"] % 811 == 1:
             rep.sample({"line": line, "env": c["env"], "expected": c["expected"]})
+    # ---- "the variable's CURRENT value": histories of assignment / export / unset / read / prefixed commands (the C09 model,
+    # spec/EnvDir.tla, TLC random walks) with every name expanded after every operation in the $NAME and ${NAME} spellings, with
+    # text around the reference; only the expansions are judged here (what children see is C09's subject)
+    import c09
+    hists = []
+    nh = 40 if tier == "quick" else 800
+    rs = run_tlc("MCEnvDir", "MCEnvDir_sim", simulate=max(4, nh // 20), depth=40, seed=seed + 1, workers=1, coverage=False,
+                 on_replay=lambda v: hists.append(v) if len(hists) < nh else None, keep_replays=False, timeout=1800)
+    if rs.violation:
+        raise ToolError("model violation during generation of variable histories:\n" + rs.violation[:1500])
+    rep.add_tlc(rs)
+    hjobs = []
+    for h in hists:
+        # c09.render emits one observation per operation; replace it by the four spellings
+        text = ""
+        k = 0
+        for ln in c09.render(h).split("\n"):
+            if ln.startswith("vpa OBS"):
+                k += 1
+                text += 'vpa CUR%d "$A" "${B}" "x${AB}y" "-$_x"\n' % k
+            elif ln:
+                text += ln + "\n"
+        j = c09.job_of(h)
+        j["text"] = text
+        j["want_files"] = False
+        hjobs.append(j)
+    for h, j, res in zip(hists, hjobs, run_cases(hjobs)):
+        rep.cov["evaluations"] += 1
+        obs = {r["argv"][0]: r["argv"][1:] for r in res.get("log", []) if r.get("h") == "pa" and r.get("argv") and r["argv"][0].startswith("CUR")}
+        for i, o in enumerate(h, 1):
+            val = {n: ("" if o["exp"].get(n, c09.UNSET) == c09.UNSET else o["exp"][n]) for n in c09.NAMES}
+            want = [val["A"], val["B"], "x" + val["AB"] + "y", "-" + val["_x"]]
+            if obs.get("CUR%d" % i) != want:
+                rep.violation("current-value/%s" % o["op"]["op"], "after operation %d (%s) of\n%s--- \"$A\" \"${B}\" \"x${AB}y\" \"-$_x\" expand to %s, the current values give %s (stderr %s)"
+                              % (i, json.dumps(o["op"]), j["text"], obs.get("CUR%d" % i), want, res.get("stderr", "")[-200:]),
+                              {"kind": "history", "hist": h, "text": j["text"], "step": i}, {"kind": "history", "op": o["op"]["op"]})
+                break
     rep.cov["distinct_nontrivial"] = len(distinct)
     rep.cov["traces_validated_against_impl"] = rep.cov["evaluations"]
     rep.assumptions += ["variables are exported through the process environment of the shell", "$? is 3 (a marker helper exits 3 first), "
